@@ -186,7 +186,8 @@ pub fn length_like_positions(env: &Env) -> Vec<u64> {
     }
     let mut i = 16usize;
     while i + 8 <= b.len() {
-        if b[i + 3..i + 8].iter().all(|x| *x == 0) {
+        // a small 64-bit value; the top bit may carry a format flag (BitVec's byte count does)
+        if b[i + 3..i + 7].iter().all(|x| *x == 0) && (b[i + 7] == 0 || b[i + 7] == 0x80) {
             v.push(i as u64);
         }
         i += 1;
